@@ -814,7 +814,7 @@ theorem outgroupPlan_ok {strict : Bool} {S : List String} {t1 : T} {pl : Plan}
     simp only [Bool.not_eq_true', List.isEmpty_eq_false_iff] at this
     exact this he
   · cases strict
-    · simpa using check_ok_panic h4
+    · simpa using check_ok_err h4
     · simpa using check_ok_err h4
   · unfold lcaRes at h5
     split at h5
